@@ -90,7 +90,12 @@ func (s *Solver) start() error {
 	s.declF = map[string]bool{}
 	s.send("(set-option :produce-models true)")
 	if strings.HasPrefix(s.argv[0], "z3") {
-		s.send(fmt.Sprintf("(set-option :timeout %d)", s.timeout))
+		// short soft timeout for the incremental core; undecided queries are retried one-shot with the full limit
+		inc := s.timeout
+		if inc > 8000 {
+			inc = 8000
+		}
+		s.send(fmt.Sprintf("(set-option :timeout %d)", inc))
 	} else {
 		s.send("(set-logic ALL)")
 	}
